@@ -3,9 +3,9 @@
     where a 2^32 x 2^31 array costs nothing).  Positions cannot be observed there (all
     zero-sized elements share one address), so a yield is encoded by its presence and the
     row's length.  Runner and encoding; definitions only. *)
-From TD Require Import Base.Prelude Base.Codec Model.Iter Model.View Model.BigIter Model.IterRun.
+From TD Require Import Base.Prelude Base.Codec Model.Iter Model.View Model.BigIter Model.BigFlat Model.IterRun.
 
-Inductive bstate : Type := BRows (it : brows) | BCol (it : bcol).
+Inductive bstate : Type := BRows (it : brows) | BCol (it : bcol) | BCells (it : bflat).
 Inductive byield : Type := BYRow (o : option bsl) | BYCell (o : option N) | BYLen (n : N) | BYIdx (r : res N).
 
 Definition enc_byield (y : byield) : list N :=
@@ -23,7 +23,10 @@ Definition blift_rows (r : res (option bsl * brows)) : res (byield * bstate) :=
 Definition blift_col (r : res (option N * bcol)) : res (byield * bstate) :=
   p <- r ;; Ok (BYCell (fst p), BCol (snd p)).
 
-Definition bcall_step (s : bstate) (c : icall) : res (byield * bstate) :=
+Definition blift_cells (r : res (option N * bflat)) : res (byield * bstate) :=
+  p <- r ;; Ok (BYCell (fst p), BCells (snd p)).
+
+Definition bcall_step (dbg : bool) (s : bstate) (c : icall) : res (byield * bstate) :=
   match s, c with
   | BRows it, INext => blift_rows (brows_next it)
   | BRows it, INextBack => blift_rows (brows_next_back it)
@@ -37,39 +40,46 @@ Definition bcall_step (s : bstate) (c : icall) : res (byield * bstate) :=
   | BCol it, INthBack n => blift_col (bcol_nth_back it n)
   | BCol it, ILen => Ok (BYLen (bcol_len it), s)
   | BCol it, IIndex i => Ok (BYIdx (bcol_index it i), s)
+  | BCells it, INext => blift_cells (bflat_next it)
+  | BCells it, INextBack => blift_cells (bflat_next_back it)
+  | BCells it, INth n => blift_cells (bflat_nth dbg it n)
+  | BCells it, INthBack n => blift_cells (bflat_nth_back dbg it n)
+  | BCells it, ILen => Ok (BYLen (bflat_len it), s)
+  | BCells it, IIndex _ => Ok (BYLen 0, s)
   end.
 
-Fixpoint bcalls (s : bstate) (cs : list icall) : res (list N * bstate) :=
+Fixpoint bcalls (dbg : bool) (s : bstate) (cs : list icall) : res (list N * bstate) :=
   match cs with
   | [] => Ok ([], s)
   | c :: tl =>
-      r <- bcall_step s c ;;
+      r <- bcall_step dbg s c ;;
       let '(y, s') := r in
-      rest <- bcalls s' tl ;;
+      rest <- bcalls dbg s' tl ;;
       Ok (enc_byield y ++ fst rest, snd rest)
   end.
 
 (** terminal calls: count() and last() (both O(1) in the implementation); no folds *)
 Definition bterm_step (s : bstate) (t : nat) : res (list N) :=
   match t with
-  | 0 => Ok [match s with BRows it => brows_len it | BCol it => bcol_len it end]
+  | 0 => Ok [match s with BRows it => brows_len it | BCol it => bcol_len it | BCells it => bflat_len it end]
   | 1 => match s with
          | BRows it => p <- brows_next_back it ;; Ok (enc_byield (BYRow (fst p)))
          | BCol it => p <- bcol_next_back it ;; Ok (enc_byield (BYCell (fst p)))
+         | BCells it => p <- bflat_next_back it ;; Ok (enc_byield (BYCell (fst p)))
          end
   | _ => Ok []
   end.
 
 Record bcase : Type := mkBCase {
-  bc_recv : nat; bc_C : N; bc_R : N; bc_win : N * N * N * N;
+  bc_dbg : bool; bc_recv : nat; bc_C : N; bc_R : N; bc_win : N * N * N * N;
   bc_kind : nat; bc_col : N; bc_calls : list icall; bc_term : nat;
 }.
 
 Definition p_bcase : parser bcase :=
-  _dbg <~ p_bool ;; rk <~ p_nat ;; _mu <~ p_bool ;; C <~ p_N ;; R <~ p_N ;;
+  dbg <~ p_bool ;; rk <~ p_nat ;; _mu <~ p_bool ;; C <~ p_N ;; R <~ p_N ;;
   s0 <~ p_N ;; s1 <~ p_N ;; e0 <~ p_N ;; e1 <~ p_N ;;
   ik <~ p_nat ;; ci <~ p_N ;; calls <~ p_list p_icall ;; t <~ p_nat ;;
-  p_ret (mkBCase rk C R (s0, s1, e0, e1) ik ci calls t).
+  p_ret (mkBCase dbg rk C R (s0, s1, e0, e1) ik ci calls t).
 
 (** receivers: 0 the owned array, 1 [TooDeeView::new(..).view(..)], 2
     [TooDeeViewMut::new(..).view_mut(..)], 3 [owned.view(..)] *)
@@ -88,6 +98,8 @@ Definition bc_start (c : bcase) : res bstate :=
   let '(k, v) := kv in
   match bc_kind c with
   | 0 => it <- bv_rows v ;; Ok (BRows it)
+  (* cells() / cells_mut(): FlattenExact over the row cursor *)
+  | 2 => it <- bv_rows v ;; Ok (BCells (bflat_new it))
   | _ => it <- bv_col k v (bc_col c) ;; Ok (BCol it)
   end.
 
@@ -99,7 +111,7 @@ Definition bigiter_model (inp : list N) : list N :=
       | Panic => [0%N]
       | UB => [777771%N]
       | Ok s0 =>
-          match (r <- bcalls s0 (bc_calls c) ;;
+          match (r <- bcalls (bc_dbg c) s0 (bc_calls c) ;;
                  t <- bterm_step (snd r) (bc_term c) ;;
                  Ok (fst r ++ t)) with
           | Ok l => 1%N :: l
